@@ -27,6 +27,51 @@ func evalCtx(s *gen.Scope) *hcl.EvalContext {
 	return &hcl.EvalContext{Variables: vars, Functions: stdCtyFuncs}
 }
 
+// chainCtx spreads a scope over a chain root -> (empty) -> leaf: every variable
+// and every function lives in the root or in the leaf; some leaf variables have
+// a decoy of the same name in the root.
+func chainCtx(r *rand.Rand, s *gen.Scope) *hcl.EvalContext {
+	root := &hcl.EvalContext{Variables: map[string]cty.Value{}, Functions: map[string]function.Function{}}
+	mid := root.NewChild()
+	if gen.Chance(r, 0.5) {
+		mid.Variables = map[string]cty.Value{}
+	}
+	if gen.Chance(r, 0.3) {
+		mid.Functions = map[string]function.Function{}
+	}
+	leaf := mid.NewChild()
+	leaf.Variables = map[string]cty.Value{}
+	leaf.Functions = map[string]function.Function{}
+	for _, n := range s.Names {
+		v, ok := s.Vars[n]
+		if !ok {
+			continue
+		}
+		switch r.Intn(3) {
+		case 0:
+			root.Variables[n] = v
+		case 1:
+			leaf.Variables[n] = v
+		default:
+			leaf.Variables[n] = v
+			root.Variables[n] = cty.StringVal("decoy-in-the-root-context")
+		}
+	}
+	var fnames []string
+	for n := range stdCtyFuncs {
+		fnames = append(fnames, n)
+	}
+	sort.Strings(fnames)
+	for _, n := range fnames {
+		if gen.Chance(r, 0.5) {
+			root.Functions[n] = stdCtyFuncs[n]
+		} else {
+			leaf.Functions[n] = stdCtyFuncs[n]
+		}
+	}
+	return leaf
+}
+
 func ctxWith(vars map[string]cty.Value) *hcl.EvalContext {
 	return &hcl.EvalContext{Variables: vars, Functions: map[string]function.Function(stdCtyFuncs)}
 }
